@@ -28,6 +28,8 @@ pub struct Observed {
     pub balances: Vec<Result<Vec<(String, Vec<(String, rust_decimal::Decimal)>)>, String>>,
     /// per account: postings listed by `Ledger::postings(account)`
     pub registers: BTreeMap<String, Vec<Multi>>,
+    pub conv_asked: u64,
+    pub conv_ok: u64,
 }
 
 pub fn gen_report_ledger(rng: &mut Rng, min_txn: usize, max_txn: usize) -> Option<(Ledger, Vec<(usize, Outcome)>)> {
@@ -285,7 +287,27 @@ impl Check for C04 {
                         txns.push((t.date, ps));
                     }
                     let mut balances = Vec::new();
-                    for r in &ranges2 {
+                    let (mut conv_asked, mut conv_ok) = (0u64, 0u64);
+                    for (k, r) in ranges2.iter().enumerate() {
+                        // one range in three is first asked for with a conversion (result unused): the
+                        // plain answer that follows on the same Ledger must not depend on that history
+                        if k % 3 == 1 {
+                            if let Some(target) = rctx.commodity(bookgen::COMMODITIES[(k / 3) % bookgen::COMMODITIES.len()]) {
+                                let strategy = if (k / 3) % 2 == 0 {
+                                    query::ConversionStrategy::Historical
+                                } else {
+                                    query::ConversionStrategy::UpToDate { now: r.1.or(r.0).unwrap_or(NaiveDate::from_ymd_opt(2024, 6, 1).unwrap()) }
+                                };
+                                let cq = query::BalanceQuery {
+                                    conversion: Some(query::Conversion { strategy, target }),
+                                    date_range: query::DateRange { start: r.0, end: r.1 },
+                                };
+                                conv_asked += 1;
+                                if l.balance(rctx, &cq).is_ok() {
+                                    conv_ok += 1;
+                                }
+                            }
+                        }
                         let q = query::BalanceQuery {
                             conversion: None,
                             date_range: query::DateRange { start: r.0, end: r.1 },
@@ -305,7 +327,7 @@ impl Check for C04 {
                         let ps = l.postings(rctx, &query::PostingQuery { account: Some(a.clone()) });
                         registers.insert(a.clone(), ps.iter().map(|p| to_multi(&p.amount)).collect::<Vec<_>>());
                     }
-                    Ok(Observed { txns, balances, registers })
+                    Ok(Observed { txns, balances, registers, conv_asked, conv_ok })
                 }
             })
         });
@@ -328,6 +350,8 @@ impl Check for C04 {
         };
         rec.nontrivial(&rendered.text);
         rec.count_n("ranges-queried", ranges.len() as u64);
+        rec.count_n("converted-queries-interleaved", obs.conv_asked);
+        rec.count_n("converted-queries-interleaved:answered", obs.conv_ok);
         rec.count_n("transactions", obs.txns.len() as u64);
         let witness = |extra: serde_json::Value| json!({"ledger": rendered.text, "detail": extra});
 
